@@ -292,12 +292,11 @@ def check_noninstruction(ctx, kind, segs, feature):
             run.inconc(f"{kind}: REJECT unknown for {s.method}")
 
 
-def data16_probe(ctx):
+def data16_probe(run):
     """The `data16 ` pre-processing of LineParser.parse is a string rewrite, outside the regular-language encoding.
     It is exercised on randomly drawn members of every data16 line class of the grammar (bug hunting, not a proof):
     the real parse_line must yield the line's address and its first token that is not the data16 prefix
     (the token `data16` itself when nothing follows it, as objdump prints for a dangling 0x66 prefix)."""
-    run = ctx.run
     W = G.WORD
     classes = {
         "alone": G.HEAD + [(2, "data16")],
@@ -324,7 +323,6 @@ def data16_probe(ctx):
                 run.count("disagreements_replayed")
                 run.failure(f"data16/{cname}", f"data16 line {line!r}: expected addr={exp[0]!r} mnemonic={exp[1]!r}, real parse -> {got}", {"kind": "lx", "line": line, "segs": segs, "lemma": "DATA16"})
                 break
-    run.coverage_extra["data16_statement"] = list(ctx.data16) if ctx.data16 else None
 
 
 def validate_grammar(run, t, sd):
@@ -419,6 +417,8 @@ def main_for(prop):
     run = Run(prop, "model_checking", "LX")
     t, sd = tier(), seed()
     sample_validation(run, prop)
+    if prop in ("C08", "C16"):
+        data16_probe(run)      # independent of the encoding of the cascade
     try:
         ctx = Ctx(run)
     except Unsupported as e:
@@ -435,7 +435,6 @@ def main_for(prop):
         check_instruction_class(ctx, prop, "instruction_single_token", G.G_NOOPS, "ins_noops", ("COLOUR",))
         for kind, segs in G.NONINSTR.items():
             check_noninstruction(ctx, kind, segs, f"non_{kind}")
-        data16_probe(ctx)
         c08_extra(ctx)
     elif prop == "C10":
         check_instruction_class(ctx, prop, "instruction_with_second_token", G.G_OPS, "ins_ops", ("COLOUR", "SEPFREE"))
@@ -451,7 +450,6 @@ def main_for(prop):
         check_instruction_class(ctx, prop, "instruction_single_token_no_byte_column", G.G_NOOPS_NOBYTES, "nobytes_noops", ("COLOUR",))
         for kind, segs in G.NONINSTR.items():
             check_noninstruction(ctx, kind, segs, f"non_{kind}")
-        data16_probe(ctx)
         c16_extra(ctx)
     run.solver_s = ctx.q.wall
     states = run.counts.get("queries", 0)
